@@ -227,6 +227,16 @@ where
     yvals[0] + x * (yvals[1] - yvals[0])
 }
 
+/// Advance the time step of a ramp by one increment, without passing the end value.
+fn ramp_step(t_ratio: f64, increment: f64, t_ratio_end: f64) -> f64 {
+    let next = t_ratio + increment;
+    if (increment > 0.0 && next > t_ratio_end) || (increment < 0.0 && next < t_ratio_end) {
+        t_ratio_end
+    } else {
+        next
+    }
+}
+
 fn validate_ratios(
     resample_ratio: f64,
     max_resample_ratio_relative: f64,
@@ -400,7 +410,7 @@ where
                 let mut points = [T::zero(); 4];
                 let mut nearest = [(0isize, 0isize); 4];
                 while idx < end_idx as f64 {
-                    t_ratio += t_ratio_increment;
+                    t_ratio = ramp_step(t_ratio, t_ratio_increment, t_ratio_end);
                     idx += t_ratio;
                     get_nearest_times_4(idx, oversampling_factor as isize, &mut nearest);
                     let frac = idx * oversampling_factor as f64
@@ -426,7 +436,7 @@ where
                 let mut points = [T::zero(); 3];
                 let mut nearest = [(0isize, 0isize); 3];
                 while idx < end_idx as f64 {
-                    t_ratio += t_ratio_increment;
+                    t_ratio = ramp_step(t_ratio, t_ratio_increment, t_ratio_end);
                     idx += t_ratio;
                     get_nearest_times_3(idx, oversampling_factor as isize, &mut nearest);
                     let frac = idx * oversampling_factor as f64
@@ -452,7 +462,7 @@ where
                 let mut points = [T::zero(); 2];
                 let mut nearest = [(0isize, 0isize); 2];
                 while idx < end_idx as f64 {
-                    t_ratio += t_ratio_increment;
+                    t_ratio = ramp_step(t_ratio, t_ratio_increment, t_ratio_end);
                     idx += t_ratio;
                     get_nearest_times_2(idx, oversampling_factor as isize, &mut nearest);
                     let frac = idx * oversampling_factor as f64
@@ -478,7 +488,7 @@ where
                 let mut point;
                 let mut nearest;
                 while idx < end_idx as f64 {
-                    t_ratio += t_ratio_increment;
+                    t_ratio = ramp_step(t_ratio, t_ratio_increment, t_ratio_end);
                     idx += t_ratio;
                     nearest = get_nearest_time(idx, oversampling_factor as isize);
                     for (chan, active) in self.channel_mask.iter().enumerate() {
